@@ -277,8 +277,23 @@ func doFile(path string) error {
 }
 
 // writeReset drops the registry snapshot/restore hook into the root package.
+// If the tree no longer has the registry in the shape the hook needs (a change
+// replaced the map or the mutex), a no-op hook is written instead and the
+// marker file <root>/../fresh_mode tells check.sh to run every seed in its
+// own worker process, which needs no reset.
 func writeReset() error {
-	src := `package lorawan
+	b, _ := os.ReadFile(filepath.Join(rootDir, "mac_commands.go"))
+	src := string(b)
+	okShape := strings.Contains(src, "var macPayloadRegistry = map[bool]map[CID]macPayloadInfo{") &&
+		strings.Contains(src, "var macPayloadMutex sync.RWMutex")
+	if !okShape {
+		noop := "package lorawan\n\n// Generated by /verif/cmd/instrument: the registry has an unexpected shape,\n// every seed runs in its own process instead.\nfunc VerifResetRegistry() {}\n"
+		if err := os.WriteFile(filepath.Join(rootDir, "zz_verif_reset.go"), []byte(noop), 0o644); err != nil {
+			return err
+		}
+		return os.WriteFile(filepath.Join(rootDir, "..", "fresh_mode"), []byte("1\n"), 0o644)
+	}
+	code := `package lorawan
 
 // Generated by /verif/cmd/instrument in a scratch copy; never part of /repo.
 
@@ -307,5 +322,5 @@ func VerifResetRegistry() {
 	}
 }
 `
-	return os.WriteFile(filepath.Join(rootDir, "zz_verif_reset.go"), []byte(src), 0o644)
+	return os.WriteFile(filepath.Join(rootDir, "zz_verif_reset.go"), []byte(code), 0o644)
 }
